@@ -519,7 +519,7 @@ func genCase(r *Rng) *caseT {
 // ---------------------------------------------------------------- driver
 
 func runC14(c *Ctx) {
-	c.Res.Rule = "a case is (writer configuration: wrappers around MultiLevelWriter or a single destination, per destination a wrapper chain of SyncWriter/FilteredLevelWriter/LevelWriterAdapter over an io.Writer or LevelWriter fake; events with level/message/field; outcome matrix ok|error value|short write per event and destination); observed = per logging call the ordered trace of destination calls (entry, level, bytes), ErrorHandler/stderr reports (error identity) and done. Bounded-exhaustive: all 3-outcome matrices for <=3 destinations x <=2 events over fixed kind assignments, the full filter-level x event-level grid; then seeded random (<=5 destinations, <=6 events, chains <=3). non-trivial = at least one reached destination fails and at least two destinations are configured; distinct by case text"
+	c.Res.Rule = "a case is (writer configuration: wrappers around MultiLevelWriter or a single destination, per destination a wrapper chain of SyncWriter/FilteredLevelWriter/LevelWriterAdapter over an io.Writer or LevelWriter fake; events with level/message/field; outcome matrix ok|error value|short write per event and destination); observed = per logging call the ordered trace of destination calls (entry, level, bytes), ErrorHandler/stderr reports (error identity) and done. Bounded-exhaustive: all 3-outcome matrices for <=3 destinations x <=2 events (thorough: <=3 events) over 4 fixed kind assignments, the full filter-level x event-level grid; then seeded random (<=5 destinations, <=6 events, chains <=3). non-trivial = at least one reached destination fails and at least two destinations are configured; distinct by case text"
 	var err error
 	stderrFile, err = os.Create(c.Out + "/stderr_capture.txt")
 	if err != nil {
@@ -564,11 +564,15 @@ func runC14(c *Ctx) {
 		{F(3, "plain"), P, F(1, "level")},
 		{F(4, "level"), F(0, "level"), P}, // destination 0 never reached
 	}
-	evLevels := []int{1, 3}
+	evLevels := []int{1, 3, 2}
+	maxE := 2
+	if c.Thorough() {
+		maxE = 3
+	}
 	exh := 0
 	for _, asg := range assignments {
 		for D := 1; D <= 3; D++ {
-			for E := 1; E <= 2; E++ {
+			for E := 1; E <= maxE; E++ {
 				cells := D * E
 				total := 1
 				for i := 0; i < cells; i++ {
@@ -616,7 +620,7 @@ func runC14(c *Ctx) {
 	}
 	c.Res.ExtraCoverage["bounded_exhaustive_matrices"] = exh
 	c.Res.ExtraCoverage["filter_grid_cases"] = grid
-	c.Res.ExtraCoverage["bounded_exhaustive_rule"] = "all 3^(D*E) outcome matrices for D<=3, E<=2 for each of 4 destination-kind assignments; filter grid = 11 filter levels x 12 event levels x 2 leaf kinds x 3 entries"
+	c.Res.ExtraCoverage["bounded_exhaustive_rule"] = "all 3^(D*E) outcome matrices for D<=3, E<=2 (thorough: E<=3) for each of 4 destination-kind assignments; filter grid = 11 filter levels x 12 event levels x 2 leaf kinds x 3 entries"
 
 	// 3. the four patterns of TestResilientMultiWriter, extended to what it does not look at
 	for _, pat := range [][]string{{"ok", "ok"}, {"err", "ok"}, {"ok", "err"}, {"err", "err"}} {
